@@ -42,9 +42,9 @@ class ExprMixin:
             s_ = z3.Const("s", sty.sort())
             i = z3.Int("i")
             x = z3.Const("x", sty.elem.sort())
-            a1 = z3.ForAll([s_, i], z3.Implies(z3.And(0 <= i, i < sty.sort().len(s_)), z3.Select(f(s_), z3.Select(sty.sort().arr(s_), i))),
-                           patterns=[z3.MultiPattern(f(s_), z3.Select(sty.sort().arr(s_), i))])
-            a2 = z3.ForAll([s_, x], z3.Implies(z3.Select(f(s_), x), z3.And(0 <= w(s_, x), w(s_, x) < sty.sort().len(s_), z3.Select(sty.sort().arr(s_), w(s_, x)) == x)),
+            a1 = z3.ForAll([s_, i], z3.Implies(z3.And(0 <= i, i < sty.len(s_)), z3.Select(f(s_), z3.Select(sty.arr(s_), i))),
+                           patterns=[z3.MultiPattern(f(s_), z3.Select(sty.arr(s_), i))])
+            a2 = z3.ForAll([s_, x], z3.Implies(z3.Select(f(s_), x), z3.And(0 <= w(s_, x), w(s_, x) < sty.len(s_), z3.Select(sty.arr(s_), w(s_, x)) == x)),
                            patterns=[z3.Select(f(s_), x)])
             self.axioms.extend([a1, a2])
             self._seqset[key] = (f, w)
@@ -367,9 +367,10 @@ class ExprMixin:
 
     def ev_Name(self, node, st, want):
         if (self.spec_mode or getattr(self, "in_ghost", 0)) and node.id == "result":
-            if self.result_sv is None:
+            if self.result_sv is not None:
+                return self.result_sv
+            if node.id not in st.env:
                 raise Unsupported("result used outside postcondition")
-            return self.result_sv
         if node.id in self.bound:
             return self.bound[node.id]
         return self.read_name(st, node.id, node)
@@ -459,8 +460,13 @@ class ExprMixin:
                     a2 = SV(acc.ty.val(acc.t), r.ty)
                     acc = SV(z3.If(g, a2.t, r.t), r.ty)
                 else:
-                    a2, r2 = self.unify(acc, r)
-                    acc = SV(z3.If(g, r2.t, a2.t) if is_and else z3.If(g, a2.t, r2.t), a2.ty)
+                    try:
+                        a2, r2 = self.unify(acc, r)
+                        acc = SV(z3.If(g, r2.t, a2.t) if is_and else z3.If(g, a2.t, r2.t), a2.ty)
+                    except Unsupported:
+                        # operands of unrelated types: only the truth value can be used (tests of if/while)
+                        rt = self.truthy(r)
+                        acc = SV(z3.And(g, rt) if is_and else z3.Or(g, rt), T.Bool)
         return acc
 
     def ev_IfExp(self, node, st, want):
